@@ -110,11 +110,18 @@ class C03(Oracle):
 
     def segment_end(self, op):
         sim = self.R.sim
+        seen = set()
         for nd in sim.transitive_nodes:
             for i in self.R.inds(nd):
                 self.check_ind(i, nd.id_number)
+                seen.add(i.id_number)
         for i in sim.nodes[-1].all_individuals:
             self.check_ind(i, -1)
+            seen.add(i.id_number)
+        # every customer that ever moved must be found with its journey (its records say where it is)
+        for iid in set(self.rel) | set(self.ren):
+            if iid not in seen:
+                self.fail("journey-ends-nowhere", "ind %s left a node %d time(s) but is in no node and not at the exit" % (iid, self.rel.get(iid, 0) + self.ren.get(iid, 0)))
 
     def probe(self):
         return self.multi
